@@ -29,6 +29,7 @@ type fakeClient struct {
 	listOpts []apicontainer.ListOptions
 	logOpts  []apicontainer.LogsOptions
 	logIDs   []string
+	noGate   bool // reference runs: no place in the recorded completion order
 }
 
 func newFakeClient(n int) *fakeClient {
@@ -54,8 +55,10 @@ func (f *fakeClient) ContainerLogs(_ context.Context, id string, o apicontainer.
 	if idx < 0 {
 		return nil, errVerifDocker
 	}
-	vsymGate(idx)
-	defer vsymGateDone(idx)
+	if !f.noGate {
+		vsymGate(idx)
+		defer vsymGateDone(idx)
+	}
 	f.logOpts[idx] = o
 	f.logIDs[idx] = id
 	if idx == f.failOpen {
